@@ -30,7 +30,7 @@ CHECKS = {
     "C02": _c(
         "other",
         "History quantifier handled by a representation invariant wf(tree) that every public operation must preserve: proved for the small pure pieces "
-        "(leg rules, _remove_node, contract_nodes_pair, reset_contraction_indices, remove_ind in place: per-node effect + invalidation of every dependent recipe, closed under parents; "
+        "(leg rules, _remove_node, contract_nodes_pair, reset_contraction_indices, remove_ind in place: per-node effect + invalidation of every dependent recipe, closed under parents; restore_ind in place: every recipe reset on return, exactly the restored record leaves sliced_inds; "
         "copy completeness as a syntactic frame clause); preservation by the remaining large mutators is checked bounded: ALL histories up to a length bound "
         "over a menu of operations from prepared cache states, with wf and the polynomial value checked on deep snapshots after every step.",
         "History length, operation menu and network sizes are bounded (stated in evidence).",
@@ -39,13 +39,13 @@ CHECKS = {
         "other",
         "Proved for all inputs: the totals loops (contract_stats, total_flops, total_write, max_size, peak_size) compute exactly the sum / multiset / running peak "
         "over the traversed nodes times the multiplicity, MaxCounter keeps its multiset invariant, the leg rule (get_legs/get_involved) and the per-node figures "
-        "(get_size/get_flops = product of sizes over legs / involved). Bounded: every figure against an independent evaluator "
+        "(get_size/get_flops = product of sizes over legs / involved), and the slice count round trip: remove_ind multiplies the multiplicity by the size it records, restore_ind divides by exactly that recorded size (sliced: the whole range, projected: 1). Bounded: every figure against an independent evaluator "
         "and against the shapes actually produced while contracting, over complete small scopes x all trees x sliced subsets x orders.",
         "get_flops/get_size/traverse abstracted as pure functions inside the totals loops.",
     ),
     "C04": _c(
         "other",
-        "Proved: tracked-total arithmetic pieces (MaxCounter multiset invariant, totals loops, annealing move evaluator == common leg/cost spec, copy completeness). "
+        "Proved: tracked-total arithmetic pieces (MaxCounter multiset invariant, totals loops, annealing move evaluator == common leg/cost spec, copy completeness; restore_ind undoes remove_ind's multiplicity and slice record exactly and resets every recipe). "
         "Bounded: after every step of enumerated histories every figure and per-node index set equals a from-scratch rebuild; slice/unslice in every order restores figures.",
         "History length and scopes bounded.",
     ),
